@@ -20,7 +20,7 @@
    _bfs/_make_pid/_c_set are not modelled. *)
 From Coq Require Import ZArith List Bool Permutation.
 From Model Require Import PyBase Graph Rings RingsFilter.
-From Proofs Require Import RingsProofs RingsMcb RingsRank RingsExt RingsDim RingsFund RingsMin RingsHorton RingsFilterProofs.
+From Proofs Require Import RingsProofs RingsMcb RingsRank RingsExt RingsDim RingsFund RingsMin RingsHorton RingsSizes RingsFilterProofs.
 Import ListNotations.
 Open Scope Z_scope.
 
@@ -200,6 +200,19 @@ Theorem C06_minimum_certificate : forall g rs, is_cycle_basis g rs = true -> tot
   forall rs', is_cycle_basis g rs' = true -> total_size rs <= total_size rs'.
 Proof. exact minimum_certificate. Qed.
 Print Assumptions C06_minimum_certificate.
+
+(* the ring sizes of a minimum cycle basis are an invariant of the graph: an accepted ring list with the total size of mcb_ref
+   has, after sorting, exactly the ring sizes of mcb_ref; two minimum cycle bases have the same ring sizes *)
+Theorem C06_minimum_sizes : forall g rs, is_cycle_basis g rs = true -> total_size rs = total_size (mcb_ref g) ->
+  isort (map (@length Z) rs) = map (@length Z) (mcb_ref g).
+Proof. exact minimum_sizes. Qed.
+Print Assumptions C06_minimum_sizes.
+
+Theorem C06_minimum_bases_same_sizes : forall g rs rs', is_cycle_basis g rs = true -> is_cycle_basis g rs' = true ->
+  total_size rs = total_size (mcb_ref g) -> total_size rs' = total_size (mcb_ref g) ->
+  isort (map (@length Z) rs) = isort (map (@length Z) rs').
+Proof. exact minimum_bases_same_sizes. Qed.
+Print Assumptions C06_minimum_bases_same_sizes.
 
 Theorem C06_minimum_example : is_cycle_basis cage_7_12 (mcb_ref cage_7_12) = true /\ total_size (mcb_ref cage_7_12) = 21 /\
   forall rs, is_cycle_basis cage_7_12 rs = true -> 21 <= total_size rs.
